@@ -39,8 +39,8 @@ structure BoxW (n : Nat) (b : Box) : Prop where
   midLabel : b.midLabel.length = n
   bot : b.bot.length = n
 
-theorem drawMultiq_w (p : Nat) (text : Str) (ts : List Nat) (cs : Option (List Nat)) :
-    BoxW (p * 2 + text.length + 4) (drawMultiq p text ts cs) := by
+theorem drawMultiq_w (v : Variant) (p : Nat) (text : Str) (ts : List Nat) (cs : Option (List Nat)) :
+    BoxW (p * 2 + text.length + 4) (drawMultiq v p text ts cs) := by
   have e : ∀ (a b : Char) , ((' ' : Char) :: a :: (rep (p * 2 + text.length) '─' ++ [b, ' '])).length
       = p * 2 + text.length + 4 := by intro a b; simp
   unfold drawMultiq
@@ -79,21 +79,29 @@ theorem updCbridge_w (N t0 store : Nat) (wl : List Nat) (width : Nat) :
       · simp only []; split <;> simp <;> omega
       · simp; omega
 
-theorem updTargetMultiq_w {n : Nat} {b : Box} (hb : BoxW n b) (ts wl : List Nat) :
-    ∀ a ∈ updTargetMultiq ts wl b, SegW n a.2 := by
-  intro a ha
-  obtain ⟨⟨i, w⟩, _, rfl⟩ := List.mem_map.mp ha
-  simp only []
+theorem targetSeg_w {n : Nat} {b : Box} (hb : BoxW n b) (hn : 2 ≤ n) (v : Variant) (ts cs : List Nat) (m i w : Nat) :
+    SegW n (targetSeg v ts cs m b i w) := by
+  unfold targetSeg
   split
   · exact ⟨hb.top, hb.midLabel, hb.bot⟩
   · split
     · exact ⟨hb.midFrame, hb.midLabel, hb.bot⟩
     · split
       · exact ⟨hb.top, hb.midConnect, hb.midFrame⟩
-      · exact ⟨hb.midFrame, hb.midFrame, hb.midFrame⟩
+      · refine ⟨hb.midFrame, ?_, hb.midFrame⟩
+        simp only []
+        split
+        · rw [setChar_length _ _ _ (by rw [hb.midFrame]; omega), hb.midFrame]
+        · exact hb.midFrame
 
-theorem updQbridge_w (ts cs wl : List Nat) (width : Nat) (isTop : Bool) (hw : 2 ≤ width) :
-    ∀ a ∈ updQbridge ts cs wl width isTop, SegW (width / 2 * 2) a.2 := by
+theorem updTargetMultiq_w {n : Nat} {b : Box} (hb : BoxW n b) (hn : 2 ≤ n) (v : Variant) (ts cs wl : List Nat) :
+    ∀ a ∈ updTargetMultiq v ts cs wl b, SegW n a.2 := by
+  intro a ha
+  obtain ⟨x, _, rfl⟩ := List.mem_map.mp ha
+  exact targetSeg_w hb hn v ts cs _ _ _
+
+theorem updQbridge_w (v : Variant) (ts cs wl : List Nat) (width : Nat) (isTop : Bool) (hw : 2 ≤ width) :
+    ∀ a ∈ updQbridge v ts cs wl width isTop, SegW (width / 2 * 2) a.2 := by
   intro a ha
   obtain ⟨w, _, h⟩ := List.mem_filterMap.mp ha
   have h1 : 1 ≤ width / 2 := by omega
@@ -118,14 +126,47 @@ theorem updSwap_w (p : Nat) (wl : List Nat) : ∀ a ∈ updSwap p wl, SegW (4 * 
     · constructor <;> simp <;> omega
     · constructor <;> simp <;> omega
 
-/-- Every append of every iteration of `layout` adds pieces of one length to the three rows
-of its wire — for every circuit element, valid or not. -/
-theorem plan_acts_segOk {p N C : Nat} {op : Op} {pl : Plan} (h : plan p N C op = .ok pl) :
+theorem planGate_acts_segOk {v : Variant} {p : Nat} {name : Str} {argLabel : Option Str} {targets : List Nat}
+    {controls : Option (List Nat)} {pl : Plan} (h : planGate v p name argLabel targets controls = .ok pl) :
     ∀ a ∈ pl.acts, SegOk a.2 := by
   intro a ha
-  unfold plan at h
+  unfold planGate at h
+  simp only [] at h
   split at h
-  · -- measurement
+  · cases h
+    exact (updSingleq_w (drawSingleq_w p _) _ a ha).ok
+  · split at h
+    · split at h
+      · cases h
+      · cases h; exact (updSwap_w p _ a ha).ok
+    · split at h
+      · cases h
+      · have hb := drawMultiq_w v p (gateText name argLabel) targets controls
+        have hw : 2 ≤ (drawMultiq v p (gateText name argLabel) targets controls).top.length := by
+          rw [hb.top]; omega
+        have hn : 2 ≤ p * 2 + (gateText name argLabel).length + 4 := by omega
+        split at h
+        · cases h
+          rcases List.mem_append.mp ha with ha | ha
+          · rcases List.mem_append.mp ha with ha | ha
+            · exact (updTargetMultiq_w hb hn _ _ _ _ a ha).ok
+            · split at ha
+              · exact (updQbridge_w _ _ _ _ _ _ hw a ha).ok
+              · cases ha
+          · split at ha
+            · exact (updQbridge_w _ _ _ _ _ _ hw a ha).ok
+            · cases ha
+        · cases h
+          exact (updTargetMultiq_w hb hn _ _ _ _ a ha).ok
+
+/-- Every append of every iteration of `layout` adds pieces of one length to the three rows
+of its wire — for every circuit element, valid or not, and every variant of the tree. -/
+theorem plan_acts_segOk {v : Variant} {p N C : Nat} {op : Op} {pl : Plan} (h : plan v p N C op = .ok pl) :
+    ∀ a ∈ pl.acts, SegOk a.2 := by
+  cases op with
+  | meas targets store =>
+    intro a ha
+    simp only [plan] at h
     split at h
     · cases h
     · rename_i t0 rest
@@ -133,33 +174,11 @@ theorem plan_acts_segOk {p N C : Nat} {op : Op} {pl : Plan} (h : plan p N C op =
       rcases List.mem_append.mp ha with ha | ha
       · exact (updSingleq_w (drawMeas_w p N t0 _) _ a ha).ok
       · exact (updCbridge_w _ _ _ _ _ a ha).ok
-  · -- gate
-    rename_i name argLabel targets controls
-    simp only [] at h
+  | gate name argLabel targets controls => exact planGate_acts_segOk h
+  | glob name argLabel =>
+    simp only [plan] at h
     split at h
+    · exact planGate_acts_segOk h
     · cases h
-      exact (updSingleq_w (drawSingleq_w p _) _ a ha).ok
-    · split at h
-      · split at h
-        · cases h
-        · cases h; exact (updSwap_w p _ a ha).ok
-      · split at h
-        · cases h
-        · have hb := drawMultiq_w p (gateText name argLabel) targets controls
-          have hw : 2 ≤ (drawMultiq p (gateText name argLabel) targets controls).top.length := by
-            rw [hb.top]; omega
-          split at h
-          · cases h
-            rcases List.mem_append.mp ha with ha | ha
-            · rcases List.mem_append.mp ha with ha | ha
-              · exact (updTargetMultiq_w hb _ _ a ha).ok
-              · split at ha
-                · exact (updQbridge_w _ _ _ _ _ hw a ha).ok
-                · cases ha
-            · split at ha
-              · exact (updQbridge_w _ _ _ _ _ hw a ha).ok
-              · cases ha
-          · cases h
-            exact (updTargetMultiq_w hb _ _ a ha).ok
 
 end QipVerif.Render
